@@ -21,6 +21,7 @@ pub struct RxSt {
     pub fin_seen: bool,
     pub dw: Arc<CountWaker>,
     pub rw: Arc<CountWaker>,
+    pub rwb: Arc<CountWaker>,
 }
 
 impl RxSt {
@@ -33,17 +34,19 @@ impl RxSt {
             fin_seen: false,
             dw: Default::default(),
             rw: Default::default(),
+            rwb: Default::default(),
         }
     }
 
     fn show(&self) -> String {
         format!(
-            "win={} sack={} aempty={} dw={} rw={}",
+            "win={} sack={} aempty={} dw={} rw={} rwb={}",
             self.rx.remaining_rx_window(),
             show_sack(&self.rx.selective_ack()),
             b01(self.rx.assembler_empty()),
             self.dw.take(),
-            self.rw.take()
+            self.rw.take(),
+            self.rwb.take()
         )
     }
 }
@@ -107,11 +110,15 @@ pub fn step_rx(s: &mut RxSt, args: &[&str]) -> String {
             Ok(n) => format!("flushed:{n} {}", s.show()),
             Err(e) => format!("err:{e}"),
         },
-        ["read", n] => match (n.parse::<usize>(), s.reader.as_mut()) {
+        // `readb`: the same read half polled by a second task (waker B)
+        ["read", n] | ["readb", n] => match (n.parse::<usize>(), s.reader.as_mut()) {
             (Ok(n), Some(r)) if n <= 1 << 24 => {
                 let mut v = vec![0u8; n];
                 let mut rb = ReadBuf::new(&mut v);
-                let res = match Pin::new(r).poll_read(&mut rcx, &mut rb) {
+                let rwb: Waker = s.rwb.clone().into();
+                let mut rcxb = Context::from_waker(&rwb);
+                let cxr = if args[0] == "readb" { &mut rcxb } else { &mut rcx };
+                let res = match Pin::new(r).poll_read(cxr, &mut rb) {
                     Poll::Ready(Ok(())) => {
                         let f = rb.filled();
                         if f.is_empty() {
